@@ -18,6 +18,7 @@ import Golem.Props.Stage.PipeFold
 import Golem.Props.Stage.PipeForEach
 import Golem.Props.Stage.PipeVoid
 import Golem.Props.Stage.PipeJoin
+import Golem.Props.Stage.PipeSources
 namespace Golem.Props.C06
 open Golem.Go Golem.Go.Stage Golem.Go.Pool Golem.Model Golem.Model.DSL Golem.Props.Stage
 
@@ -77,5 +78,11 @@ theorem fold_never_blockedPlain_gen (c : α → α → α) (e : α) (inCap : Nat
     ¬ blockedPlain p 0 := by
   rw [PipeFold.stage_gen, PipeFold.cfg_gen, Cfg.pool_one _ rfl] at hr
   exact fold_never_blockedPlain c e inCap _ (by simp [StageCfg.pipeFold]) gated hr
+
+/-- Emit, Unfold and Throttling as regenerated: every channel the function creates is closed by exactly one of its
+goroutines, on that goroutine's exit path (`defer close`) -/
+theorem gen_sources_close_every_channel :
+    Gen.PipeSrc.Emit.cfg.closes.flatten = [1, 0] ∧ Gen.PipeSrc.Unfold.cfg.closes.flatten = [1, 0] ∧
+    Gen.PipeSrc.Throttling.cfg.closes.flatten = [1, 0] := by decide
 
 end Golem.Props.C06
